@@ -1,7 +1,7 @@
 #!/bin/sh
 # usage: try_mutant.sh <patch.diff> <Cxx> [tier]   -- apply to /repo, run the check, always restore
 set -u
-patch=$1; prop=$2; tier=${3:-quick}
+patch=$(readlink -f "$1"); prop=$2; tier=${3:-quick}
 cd /repo || exit 2
 if ! git apply --check "$patch" 2>/dev/null; then echo "PATCH-DOES-NOT-APPLY $patch"; exit 3; fi
 git apply "$patch"
